@@ -86,3 +86,13 @@ package api
 //@   assert@call HTTP.applyMessageWait#0 : oneline: noCtl(msg.Data)
 //@ func HTTP.handleDeleteSession
 //@   assert@call HTTP.applyMessageWait#0 : oneline: noCtl(msg.Data)
+
+// ---------------------------------------------------------------------------
+// C20: the pointers that Restore swaps are only touched under HTTP.mu; the
+// long-poll statistics under getMessagesRequestsMu; the password throttle under throttleMu.
+//@ guard HTTP.ircServerUnlocked by HTTP.mu
+//@ guard HTTP.ircStoreUnlocked by HTTP.mu
+//@ guard HTTP.outputUnlocked by HTTP.mu
+//@ guard HTTP.getMessagesRequests by HTTP.getMessagesRequestsMu
+//@ guard HTTP.lastWrongPassword by HTTP.throttleMu
+//@ guard HTTP.throttlingExponent by HTTP.throttleMu
